@@ -64,6 +64,7 @@ type agentProc struct {
 var reqDepth int32
 
 func installHooks() {
+	installBootHook()
 	inject.UpdateLUNMapHook = func() {
 		if cl := curr; cl != nil && cl.cur != nil && cl.cur.running && cl.cur.goid == goid() {
 			cl.gate("window inside UpdateLUNMap (map preloaded, server unlocked)")
@@ -165,6 +166,10 @@ func (cl *cluster) routeExtra(req *http.Request) (*http.Response, bool) {
 	if host == ctlHost {
 		if cl.ctlRouter == nil {
 			cl.ctlRouter = crest.NewRouter(crest.NewServer(cl.c))
+		}
+		if t := cl.cur; t != nil && t.kind == "boot" && req.URL.Path == "/v1/register" {
+			// ground truth for the election oracle: what this replica really holds when it registers
+			cl.regTruth[t.node] = cl.nodes[t.node].View().Rev
 		}
 		rec := httptest.NewRecorder()
 		cl.ctlRouter.ServeHTTP(rec, req)
